@@ -40,13 +40,14 @@ def main():
         env.update(it.get("env", {}))
         args = [unesc(a) for a in it["args"]]
         answers = [unesc(a) for a in it.get("stdin", [])]
-        p = subprocess.Popen([sys.executable, "-B", "-m", "cvss.cvss_calculator"] + args, stdin=subprocess.PIPE,
+        argv = [unesc(a) for a in it.get("argv", it["args"])]          # what is typed; args is its normalised form
+        p = subprocess.Popen([sys.executable, "-B", "-m", "cvss.cvss_calculator"] + argv, stdin=subprocess.PIPE,
                              stdout=subprocess.PIPE, stderr=subprocess.PIPE, env=env)
         data = "".join(a + "\n" for a in answers).encode("utf-8")
         out, err = p.communicate(data)
         out = out.decode("utf-8", "replace")
         err = err.decode("utf-8", "replace")
-        ev = {"args": it["args"], "stdin": it.get("stdin", []), "rc": p.returncode,
+        ev = {"args": it["args"], "argv": it.get("argv", it["args"]), "stdin": it.get("stdin", []), "rc": p.returncode,
               "stdout": [esc(l.rstrip("\r")) for l in out.split("\n")], "stdout_text": esc(out), "stderr": esc(err)[:400],
               "traceback": "Traceback" in err}
         # the JSON document found in stdout, if any
